@@ -244,7 +244,15 @@ def rule_stop(m, rep):
                 v_ = _nested_get(list(rts)[0], flagname)
                 if v_ is not None:
                     v_ = norm(v_)
-                    init_ok = term_callee_is(v_, 'core::sync::atomic::Atomic::new') and v_[2][0] == ('const', 'bool', False, None)
+                    # the flag may sit in a private struct (`shutdown: ShutdownState { requested, stopped }`, a `StopRequest` with a
+                    # derived Default): every boolean atomic in its initial value starts as false
+                    inits = []
+                    for y in walk(v_):
+                        if term_callee_is(y, 'core::sync::atomic::Atomic::new') and len(y[2]) == 1 and y[2][0][0] == 'const' and y[2][0][1] == 'bool':
+                            inits.append(y[2][0][2] is False)
+                        elif y[0] == 'call' and isinstance(y[1], str) and y[1].endswith('as core::default::Default>::default') and 'atomic::Atomic' in y[1] and not y[2]:
+                            inits.append(True)      # AtomicBool::default() is false
+                    init_ok = bool(inits) and all(inits)
         rep.ob('R1', 'stop/flag-starts-false', init_ok, news[0].where() if news else b.where(),
                'a new worker starts with the stop flag unset' if init_ok else
                'a new worker does not start with `%s` = false: it leaves its loop the first time it finds the queue empty' % flagname)
